@@ -49,6 +49,18 @@ claims = {
   text="Reduced claim, decided per function: (1) GET handlers (blobGet$1, manifestGet$1): at the call of http.ServeContent the reader being served was handed out by the store for exactly the digest that the Docker-Content-Digest header reports (ghost field of the reader), also after content negotiation replaced the descriptor by a child, and for a request by digest that digest is the one in the URL. (2) push handlers: a PUT closes the session only after Verify(digest parameter) succeeded, and a manifest is stored under the digest computed from the received bytes (reference-is-tag-or-body-digest). (3) upload objects of both stores: the representation invariant 'the writer is the tee of the file/buffer and of the hash of the current digester' is established where the object is built and kept by every method, so no accepted byte bypasses the hash and the digester cannot be swapped without the writer.",
   ref="DESIGN.md 5 (C01), 11",
   note=COMMON_TRUST + STORE_ASSUMED + "Not proved: that the digest reported by a digester is the hash of the bytes fed to it (go-digest, crypto), that Close stores the file under exactly that digest when no digest was pinned (read off the code: the blob name is built from d.Digest()), rescans after an algorithm change (Seek/Copy are not modelled), partial writes after an I/O fault. Content of stored blobs is not modelled, so 'never retrievable under a wrong digest' is reduced to the three clauses above."),
+ "C05": dict(
+  text="Two layers, labelled separately in the evidence. (1) Proved by contract on the real code, for all inputs: step invariants of repoGarbageCollect (every child of a walked index is queued; config and layers of a walked image are marked; a blob or index entry is only removed when it is unmarked, respectively has no blob), and the age rules that make 'recent' mean 'recently acknowledged': memRepoUpload.Close stores the blob with an age not older than the call, BlobCreate refreshes the age of a blob it reports as existing (both stores). (2) Bounded stand-in for what those contracts do not decide - that the marked set is closed under the retention rules: the real collector is run on every repository over a small universe (2 configs, 2 layers, an image, an image listing the first as a layer, an index, an artifact whose subject is a manifest or a layer; every top-level state, 2 entry orders, 8 policies; memory store in quick, both stores in thorough) and compared with the least fixed point of the rules of the statement. The bounded part found the two closure defects (walked vs. seen; referrers of layers), now repaired.",
+  ref="DESIGN.md 5 (C05), 11",
+  note=COMMON_TRUST + "The closure argument is NOT proved: it is decided by the bounded stand-in only, up to the stated universe (labelled bounded, not counted as proved). Open (listed): layers-marked on the path that queues a referrers response (needs a no-aliasing fact about decoded slices), wfIndex at the collector's RmDesc calls. Not covered: the grace period with real clocks in the dir store (mtime of renamed temp files), concurrent pushes during a collection."),
+ "C06": dict(
+  text="(1) Proved by contract: inside the loop over the repositories of dir.gc and mem.gc the only return is the reaction to the stop signal, so a repository whose collection fails cannot end the pass (this was violated and is repaired). (2) Bounded stand-in (same universe as C05, labelled bounded): after one pass with the grace period off an unreferenced blob is gone, no index entry is left without a blob, untagged unreferenced manifests are gone when untagged collection is on, and a second pass changes nothing.",
+  ref="DESIGN.md 5 (C06), 11",
+  note=COMMON_TRUST + "Everything except the not-starved clause is decided by the bounded stand-in only (not counted as proved). Not covered: removal of empty repositories (dirRepo.gc's directory list), repositories removed behind the store's back, timing of the ticker."),
+ "C17": dict(
+  text="Reduced claim, per function: referrerListDedup returns the list without duplicates, keeping one entry per digest (loop invariant); ManifestReferrerDescriptor takes size, artifact type (with the config fallback), annotations and subject from the manifest bytes, not from what the caller passed in (this is what lets indexValidReferrer detect a stale fallback index); indexIngest (a) never goes through a public, locking method of the repository while it may hold the lock (forbid clauses; the violation deadlocked the directory store and is repaired), (b) never fails because the regenerated response is already stored (repeatable; repaired), (c) leaves the scan of nested indexes only when the work list is empty.",
+  ref="DESIGN.md 5 (C17), 11",
+  note=COMMON_TRUST + STORE_ASSUMED + "Not proved: that exactly the referrers of the fallback indexes end up in the responses grouped by subject, that every other tag is kept (AddDesc/RmDesc are proved to keep other tags, but indexIngest's loops have no invariants), that the converted flag is set, interruption at an arbitrary file system step."),
  "C19": dict(
   text="Config.SetDefaults is proved against the documented defaults table for every configuration: a set switch keeps its pointer and no existing bool is written, an unset one gets a fresh bool with the documented default, numeric fields keep non-zero (positive for the manifest limit) values and get the default otherwise, nothing else changes. newServeCmd registers every flag name for its own option with the documented default (ghost flag registry), serveOpts.run hands every option to the documented configuration field (call-site assertion at olareg.New). The rate limit in ServeHTTP counts exactly, refuses exactly when the count exceeds the limit and never without a limit; push/delete switches route as documented (with C14).",
   ref="DESIGN.md 5 (C19), 11",
@@ -59,12 +71,9 @@ not_applicable = {
  "C11": "whole-history property over concurrent schedules (linearizability); contracts on single calls cannot express or decide it, and the technique family is fixed (DESIGN.md 6)",
  "C12": "liveness under all interleavings; out of reach of per-call contracts. The sequential self-deadlock obligations (re-locking a held mutex) that govc generates are recorded in the lock file under C12 but decide only a fragment, so nothing is claimed (DESIGN.md 6)",
  "C13": "data-race freedom is a property of schedules under the Go memory model; no contract within reach expresses it (DESIGN.md 6)",
- "C02": "designed (DESIGN.md 5); byte-identical read-back needs the store implementations under contract (ghost content of blobs); only the manifest size-limit clause is proved (manifestPut$1): not claimed",
- "C05": "designed (DESIGN.md 5); repoGarbageCollect is not under contract yet",
- "C06": "designed (DESIGN.md 5); repoGarbageCollect/gc are not under contract yet",
+ "C02": "byte-identical read-back needs a model of stored content (ghost bytes of blobs), which the contracts do not have; clauses that are proved and tagged C02 (a manifest over the size limit is refused, never stored shortened; the media type reported is the stored one; nested indexes are all re-registered on load) are locked and reported under C04/C01/C10 but do not add up to the property: not claimed",
  "C09": "designed (DESIGN.md 5); only the handler-level order 'content before index entry before 201' is proved; the file-system step order of dir.go is not under contract: not claimed",
- "C10": "designed (DESIGN.md 5); needs the ghost file system for dir.go, not built",
- "C17": "designed (DESIGN.md 5); only referrerListDedup is proved, indexIngest is not under contract: not claimed",
+ "C10": "equality of the directory with the API state needs a ghost file system for dir.go, which was not built; only the work-list clause of indexIngest (nested indexes all scanned) carries the tag: not claimed",
 }
 
 def main():
